@@ -329,3 +329,10 @@ SUBS = [
     Sub("integrals", strategy, run, quick=8000, thorough=200000,
         about="bin contents vs closed-form integral / closed-form quadrature error / textbook bounds, incl. re-reads after changes"),
 ]
+
+
+def extra(tier, seed):
+    """thorough tier: coverage-guided campaign (atheris / libFuzzer) over the same strategy and oracle, see kverif/fuzz.py"""
+    from ..fuzz import thorough_extra
+
+    return thorough_extra(PROPERTY, [("integrals", 20000, 16)], tier, seed)
